@@ -148,6 +148,19 @@ def crash_report(ctx, output, prefix, extra=None, tag=None):
     """A panic / fatal error / race report of the code under test during a
     driver run is real-code behaviour: report it.  Returns True if one was
     found."""
+    hm = re.search(r"VERIF-HANG scenario=(.*)", output)
+    if hm:
+        i = output.find("VERIF-HANG")
+        blocked = re.findall(r"\[(sync\.\w+\.\w+|semacquire)[^\]]*\]:\n(?:.*\n)*?.*?lightning-node-connect/(\w+)\.([\w().*]+)",
+                             output[i:i + 200000])
+        where = "%s.%s" % (blocked[0][1], re.sub(r"\(0x.*$", "", blocked[0][2])) \
+            if blocked else "?"
+        ctx.report("hang:%s" % where,
+                   "the scenario %s made no progress in real time: a goroutine "
+                   "of the code under test waits on a lock that is never "
+                   "released (first such frame: %s)" % (hm.group(1), where),
+                   {"scenario": hm.group(1), "output": output[i:i + 8000]})
+        return True
     m = re.search(r"(panic: .*|fatal error: .*|WARNING: DATA RACE)", output)
     if not m:
         return False
